@@ -45,6 +45,16 @@ static std::vector<std::string> gen_strings(Rng& rng, size_t n, int shape, bool 
         break;
     }
     case 2: {
+        if (big && rng.coin()) {
+            // more than 65536 strings share their first two bytes (a nested 16-bit radix step), and
+            // there are further non-empty buckets before and behind that one
+            std::string p = rnd_str(rng, 2, 0x40, 0x90);
+            for (size_t i = 0; i < n; ++i) {
+                if (i * 10 < n * 7 || i < 66000) v.push_back(p + rnd_str(rng, rng.below(7), 1, 255));
+                else v.push_back(rnd_str(rng, 1 + rng.below(6), 1, 255));
+            }
+            break;
+        }
         static const size_t pl[] = { 1, 2, 3, 7, 8, 9, 15, 16, 17, 40 };
         std::string p = rnd_str(rng, big ? rng.pick(std::vector<size_t>{ 1, 2, 3 }) : rng.pick(pl), 1, 255);
         unsigned a = (unsigned)rng.pick(std::vector<unsigned>{ 2, 3, 26, 255 });
